@@ -57,6 +57,9 @@ func runC02(tier string, seed uint64, o *Out) error {
 		c.late = []int64{0, c.slide, c.size, 3 * c.size}[rng.Intn(4)]
 		n := 5 + rng.Intn(36)
 		ops := genTimeOps(rng, c.slide, c.ooo, n, nil, rng.Intn(3) == 0)
+		if i%25 == 3 {
+			ops = overflowThenQuiet(rng, c.slide, nil)
+		}
 		if err := slidingLine(o, "C02", c, ops, fmt.Sprintf("sliding late=%d", c.late/c.slide)); err != nil {
 			return err
 		}
@@ -73,6 +76,9 @@ func runC02(tier string, seed uint64, o *Out) error {
 		c.late = []int64{0, c.timeout, 5 * c.timeout}[rng.Intn(3)]
 		n := 5 + rng.Intn(36)
 		ops := genSessionOps(rng, c, n, 1+rng.Intn(3), rng.Intn(3) == 0)
+		if i%25 == 3 {
+			ops = overflowThenQuiet(rng, c.timeout, []string{"1", "2", "3"})
+		}
 		if err := sessionLine(o, "C02", c, ops, fmt.Sprintf("session late=%d", c.late/c.timeout)); err != nil {
 			return err
 		}
